@@ -397,7 +397,10 @@ def build_pdf(c, rng, plain):
     for pg in r.pages:
         w.add_page(pg)
     user = "" if c["userEmpty"] else rng.choice(["u", "pw123", "pässwörd", "x" * 40])
-    owner = rng.choice(["owner", "o" * 33, user or "same"]) if not c["userEmpty"] else rng.choice(["owner", "o"])
+    if c["owner"] == "same":          # equal to the user password: given explicitly, or left to the writer (None)
+        owner = rng.choice([user, None])
+    else:
+        owner = rng.choice(["owner", "o" * 33, "s3cret"])
     w.encrypt(user_password=user, owner_password=owner, algorithm=c["alg"])
     b = io.BytesIO()
     w.write(b)
@@ -414,7 +417,7 @@ def project_pdf(data, user_empty=None):
     except Exception:
         return {"kind": "plain"}
     if e is None:
-        return {"kind": "pdf", "alg": "none", "userEmpty": True}
+        return {"kind": "pdf", "alg": "none", "userEmpty": True, "owner": "same"}
     e = e.get_object()
     v, rev, ln = int(e.get("/V", 0)), int(e.get("/R", 0)), int(e.get("/Length", 40))
     if v in (1, 2) and rev in (2, 3):
@@ -427,7 +430,8 @@ def project_pdf(data, user_empty=None):
         alg = "AES-256-R5" if rev == 5 else "AES-256"
     else:
         alg = "RC4-40"
-    return {"kind": "pdf", "alg": alg, "userEmpty": bool(user_empty)}
+    # the owner password is not visible in the bytes either (it does not enter the classification)
+    return {"kind": "pdf", "alg": alg, "userEmpty": bool(user_empty), "owner": "distinct"}
 
 
 # --------------------------------------------------------------------------- zip
@@ -807,7 +811,8 @@ EXT_KIND = {"docx": "ooxml", "docm": "ooxml", "xlsx": "ooxml", "xlsm": "ooxml", 
 
 def project_fixture(path: Path, named: bool):
     """Abstract container of a repository fixture (structure read from the bytes; for a PDF the one thing
-    the bytes do not show -- whether the user password is empty -- is taken from the fixture's name)."""
+    the bytes do not show -- whether the user password is empty -- is taken from the fixture's name; owner
+    password: "distinct", it plays no part in Class)."""
     ext = path.suffix.lower().lstrip(".")
     data = path.read_bytes()
     kind = EXT_KIND.get(ext)
